@@ -20,7 +20,7 @@ CHECKS = {
 }
 
 POOL_NOTE = "stub transport/protocol/connection (SimConn models HttpConnection: is_open = open && (h2 || !busy), can_share = h2); unit of interleaving = one poll/drop of one future; tokio current-thread scheduler and paused clock trusted"
-POOL_TECH = "deterministic simulation: the real pool between stub endpoints, seeded step lists (issue/poll/cancel/dial/handshake/respond/close/spurious readiness wake-up/background/clock, and - C03/C14/C15/C17/C19 - back-pressure gates on the transport's and the inner service's poll_ready) with fault injection, requests issued readiness-first as tower's Oneshot does, drain + probe phases; invariants at every hand-off and history checks; delta-debugged replay files"
+POOL_TECH = "deterministic simulation: the real pool between stub endpoints, seeded step lists (issue/poll/cancel/dial/handshake/respond/close/spurious readiness wake-up/panic in the response future/background/clock, finished request futures dropped at completion or kept alive, and - C03/C14/C15/C17/C19 - back-pressure gates on the transport's and the inner service's poll_ready) with fault injection, requests issued readiness-first as tower's Oneshot does, drain + probe phases; invariants at every hand-off and history checks; delta-debugged replay files"
 def pool(text, ref):
     return ("poolsim", "exploration", POOL_TECH, text + " Seeded search over schedules and fault sequences, not enumeration: a clean batch is evidence, not proof.", POOL_NOTE, ref)
 CHECKS.update({
@@ -29,7 +29,7 @@ CHECKS.update({
  "C04": pool("An open HTTP/1 connection whose exchanges were all delivered must not be destroyed by the pool (no idle limit or timeout in this profile). Every transport connect call is attributed to its request and classified from the state at that request's issue step: idle connection present at a quiescent point, HTTP/2 attempt in flight, HTTP/2 connection established; cancelling an unserved request must not destroy idle connections. Ambiguous competition is not judged.", "DESIGN.md 5 (C04), 4.A"),
  "C05": pool("At every hand-off of a pooled connection: not closed before the request was issued nor before its hand-back; not idle longer than idle_timeout at the issue instant (virtual clock via hook H2), for idle durations on both sides of the limit.", "DESIGN.md 5 (C05), 4.A"),
  "C06": ("poolsim+realconnect",) + pool("Second part (realconnect): the real TcpTransport with a static resolver whose answer carries another port than the URI - the returned stream must be connected to the URI's port. At every hand-off the (scheme, authority) the connection was dialed for equals the request's, over 2-4 origins that differ only in scheme (http, https, ws, wss), port, case, user information or host, with waiters and idle connections alive for several at once.", "DESIGN.md 5 (C06), 4.A")[1:],
- "C14": pool("After each hand-back / HTTP/2 registration the first request with a provably live waiter must be handed that connection at its very next poll; abandoned attempts complete into the pool (continue_after_preemption) or are dropped at once (otherwise).", "DESIGN.md 5 (C14), 4.A"),
+ "C14": pool("After each hand-back / HTTP/2 registration the first request with a provably live waiter must be handed that connection at its very next poll; abandoned attempts complete into the pool (continue_after_preemption) or are dropped at once (otherwise), and leave nothing behind: after a run in which an attempt was abandoned no request is stranded and a fresh request to the origin completes.", "DESIGN.md 5 (C14), 4.A"),
  "C15": ("poolsim+e2eidle",) + pool("After every step: open idle HTTP/1 connections retained per origin, minus those in transit to a pending request that has not been polled since it was woken, never exceeds max_idle_per_host in {0,1,2,k-1,k,k+1}. Second part (e2eidle): the same bound through a real Client built by Client::builder() in every order of the builder calls, real servers and SimNet - 100 ms of virtual time after a burst of k concurrent HTTP/1.1 requests the connections the client still holds are counted.", "DESIGN.md 5 (C15), 4.A, 11")[1:],
  "C17": pool("Panic monitor (process-wide hook + catch_unwind around every call/poll/drop + background tasks) over step lists that include every http::Version constant, upgrades, cancels, service drop.", "DESIGN.md 5 (C17)"),
  "C18": ("iosim+realio", "exploration",
@@ -39,7 +39,7 @@ CHECKS.update({
          "DESIGN.md 5 (C18), 4.D"),
  "C19": ("timersim+poolsim+e2etimeout", "exploration",
          "deterministic simulation in virtual time: Timeout layer over a scripted inner future (grid enumerated) and over the real pool (deadline landing in every stage of a pooled request), with a follow-up probe; third part (e2etimeout): real client stack (every builder call order, with and without the redirect layer) and real servers, client timeout T, handler delays around T on every hop, one-hop redirects - every request resolves by T",
-         "Resolves at issue+d with the timeout error unless the inner future was ready first (tie: either), inner result unchanged, inner future dropped at resolution and never polled again; over the pool: no hand-off after expiry, probe request to the same origin succeeds.",
+         "Resolves at issue+d with the timeout error unless the inner future was ready first (tie: either), inner result unchanged, inner future dropped at resolution and never polled again; over the pool: no hand-off after expiry, probe request to the same origin succeeds, and no later request to the origin is still pending once everything outstanding has been resolved (judged before its own deadline hides it).",
          "tokio paused clock trusted; same stubs as the other pool checks",
          "DESIGN.md 5 (C19), 4.A, 4.E"),
 })
@@ -66,7 +66,7 @@ CHECKS.update({
    "DESIGN.md 5 (C09), 4.B",
    E2E_NOTE + "; the TCP and Unix acceptors run over real kernel sockets (no seam): only the system-call order is controlled there, accept errors such as EMFILE cannot be injected; handler panics out of scope"),
  "C12": e2e("tlsmode", "fault_enumeration",
-   "deterministic simulation with enumerated scheme x host form x certificate x peer behaviour (incl. the genuine TLS server flight truncated at 40 offsets, closing or stalling) through TlsTransport and through the whole client stack (there also with 1-3 more concurrent HTTP/2 requests behind the same connection attempt); raw first bytes captured at the peer, SNI captured by a recording certificate resolver, certificate validity against a simulated wall clock",
+   "deterministic simulation with enumerated scheme x host form x certificate x peer behaviour (incl. the genuine TLS server flight truncated at 40 offsets, closing or stalling) through TlsTransport and through the whole client stack (there also with 1-3 more concurrent HTTP/2 requests behind the same connection attempt), and transport faults (reset / end-of-stream after 0..3000 bytes, either direction) under the handshake; raw first bytes captured at the peer, SNI captured by a recording certificate resolver, certificate validity against a simulated wall clock",
    "https/wss: the peer's first bytes are a TLS handshake record, SNI = URI host (none for IP literals), success iff the certificate is valid for the URI host and the peer completes a genuine handshake; any failure is an Err with exactly one dial and no request reaching a handler; other schemes go out in clear; no host form panics.",
    "DESIGN.md 5 (C12), 4.B"),
  "C13": e2e("wire", "exploration",
